@@ -34,6 +34,7 @@ Users(K) == {K[i][1] : i \in 1..Len(K)}
 (* a proper map: each input once (duplicates must agree: get_validated_map) *)
 Functional(K) == \A i, j \in 1..Len(K) : REq(K[i][1], K[j][1]) => REq(K[i][2], K[j][2])
 StrictlyIncreasing(K) == \A i, j \in 1..Len(K) : RLt(K[i][1], K[j][1]) => RLt(K[i][2], K[j][2])
+StrictlyDecreasing(K) == \A i, j \in 1..Len(K) : RLt(K[i][1], K[j][1]) => RLt(K[j][2], K[i][2])
 WeaklyIncreasing(K) == \A i, j \in 1..Len(K) : RLt(K[i][1], K[j][1]) => RLe(K[i][2], K[j][2])
 
 (* knots with extreme / neighbouring coordinate in column c (1 user, 2 design) *)
